@@ -228,8 +228,16 @@ def cropped_row_slices(rep, prog, rule):
             return e[0] == "field" and e[2] == name and e[1][0] == "param" and e[1][1] == 1
 
         def is_param(e, name):
+            # the start row is the first argument after self (whatever it is called)
             e = strip_all(e)
-            return e[0] == "param" and e[2] == name
+            return e[0] == "param" and e[1] == 2
+        self_ty = re.sub(r"<.*$", "", (f.d.get("self_ty") or ""))
+        adt_f = [set(x[0] for x in a["variants"][0]["fields"]) for k, a in prog.adts.items()
+                 if (k.endswith("::" + self_ty.rsplit("::", 1)[-1])) and len(a["variants"]) == 1]
+        if adt_f and not {"top", "height"} <= adt_f[0]:
+            rep.unk(rule, key + "|rows", f.loc, "the view has no fields `top` / `height` (fields: %s)"
+                    % sorted(adt_f[0]))
+            continue
         s_ok = ((start[0] == "call" and start[1] == "saturating_add") or
                 (start[0] == "bin" and start[1] == "Add"))
         if s_ok:
